@@ -181,6 +181,10 @@ def funcdef(draw, indent=0, method=False, depth=0, hazards=(), feat=None):
         documented = [p for p in ps + kwonly if draw(st.booleans())] if draw(st.booleans()) else ps + kwonly
         if len(documented) < len(ps + kwonly):
             feat.append("doc-subset")
+        if kwarg and draw(st.integers(0, 2)) == 0:
+            # the docstring documents **kwargs as well (an entry called `kwargs`, with or without a type)
+            documented = documented + [{"name": "kwargs", "ann": None, "default": None, "doc": draw(descr), "doctyp": draw(st.sampled_from([None, "dict", "Optional[dict]"]))}]
+            feat.append("doc:kwargs-documented")
         ret = (draw(scal), draw(descr)) if draw(st.booleans()) else None
         head = draw(sentence(2, 6)).capitalize() + "."
         lines = DOCS[style](documented, ret, head, draw(st.booleans()))
